@@ -215,7 +215,7 @@ class SimplifyLogic:
         }
         for r in repls:
             assert logic.is_leaf()
-            if r in logic.data:
+            if r in logic.data and logic.data.replace(r, repls[r]):
                 cands.append(logic.data.replace(r, repls[r]))
         yield from [
             Simplification({node.id: Node('set-logic', c)}, []) for c in cands
